@@ -19,7 +19,7 @@
  "name": "p1_mark_blocks_used",
  "props": ["C02"],
  "level": "U",
- "tier": "wip",
+ "tier": "quick",
  "tier_after_hooks": "quick",
  "harness": "h_mbu",
  "loop_contracts": true,
@@ -36,6 +36,23 @@
  "native": false
 }
 */
+/* VERIF-UNIT
+{
+ "name": "p1_ext_attr_block_range",
+ "props": ["C02"],
+ "level": "U",
+ "tier": "quick",
+ "harness": "h_xattr_range",
+ "includes": ["e2fsck", "lib/support"],
+ "sources": ["lib/ext2fs/blknum.c"],
+ "unwind": 3,
+ "unwind_reason": "only the loop-free head of check_ext_attr is reachable under the harness assumption (i_file_acl outside the filesystem, or the xattr feature off); the entry-walking loops behind it are unreachable (unwinding assertions checked)",
+ "functions": ["e2fsck/pass1.c:check_ext_attr", "e2fsck/pass1.c:mark_inode_bad"],
+ "assumes": ["the separable head of check_ext_attr only: an inode whose i_file_acl (48 bits with the 64bit feature) is non-zero and lies outside [s_first_data_block, blocks count), or is non-zero on a filesystem without the ext_attr feature; inode_bad_map as in p1_mark_inode_bad",
+	     "statement: such an inode is put into inode_bad_map (pass 2's process_bad_inode then raises PR_2_FILE_ACL_ZERO / PR_2_FILE_ACL_BAD), the block is neither read nor recorded, the function reports 'no EA block'; the walk over a readable EA block is not part of this unit"],
+ "native": false
+}
+*/
 /*
  * e2fsck/pass1.c: mark_inode_bad (an inode that needs a closer look in pass 2 lands in inode_bad_map) and
  * mark_blocks_used (a run of blocks is recorded as used: every cluster of the run exactly once).
@@ -49,6 +66,9 @@ struct in_mk {
 	unsigned long long block, k;
 	unsigned int num;
 	unsigned char bigalloc, found_k, dup_k, sharing_ok, range_clear;
+	/* check_ext_attr head */
+	unsigned long long file_acl, blocks_count;
+	unsigned int first_data_block, compat;
 	unsigned char mode;
 	unsigned char choice[8];
 };
@@ -197,5 +217,59 @@ void h_mbu(void)
 		CHECK(mk_found_k == (IN.found_k & 1) && mk_dup_k == (IN.dup_k & 1), "no cluster outside the run changes");
 	}
 	if (!(IN.range_clear & 1)) REACH("slow path");
+	REACH("end");
+}
+
+/* check_ext_attr: EA block pointer out of range / feature off */
+void h_xattr_range(void)
+{
+	e2fsck_t ctx = malloc(sizeof(*ctx));
+	ext2_filsys fs = malloc(sizeof(*fs));
+	struct ext2_super_block *sb = malloc(sizeof(*sb));
+	struct ext2_inode *inode = malloc(128);
+	char *buf = malloc(1024);
+	struct problem_context pctx;
+	struct ea_quota q;
+	int r;
+
+	LOAD_IN();
+	ASSUME(ctx && fs && sb && inode && buf);
+	memset(sb, 0, sizeof(*sb));
+	memset(inode, 0, 128);
+	ctx->fs = fs;
+	ctx->flags = IN.ctxflags;
+	ctx->inode_bad_map = IN.have_map ? (ext2fs_inode_bitmap) &mk_bad_tag : 0;
+	ctx->block_ea_map = 0;
+	ctx->refcount = 0;
+	fs->super = sb;
+	fs->blocksize = 1024;
+	fs->cluster_ratio_bits = 0;
+	sb->s_first_data_block = IN.first_data_block;
+	sb->s_blocks_count = (unsigned int) IN.blocks_count;
+	sb->s_blocks_count_hi = (unsigned int) (IN.blocks_count >> 32);
+	sb->s_feature_incompat = EXT4_FEATURE_INCOMPAT_64BIT;
+	sb->s_feature_compat = IN.compat;
+	ASSUME(IN.file_acl < (1ULL << 48));
+	inode->i_file_acl = (unsigned int) IN.file_acl;
+	inode->osd2.linux2.l_i_file_acl_high = (unsigned short) (IN.file_acl >> 32);
+	memset(&pctx, 0, sizeof(pctx));
+	pctx.ino = IN.ino;
+	pctx.inode = inode;
+	mk_in[0] = IN.i_bad & 1; mk_in[1] = IN.k_bad & 1;
+	if (IN.ino == IN.kino) mk_in[1] = mk_in[0];
+	ASSUME(IN.have_map || (!mk_in[0] && !mk_in[1]));
+	ASSUME(!IN.alloc_fails);
+	mk_marks = mk_alloc_calls = 0; mk_stray = 0;
+	p1_ghost_reset(P1_NO);
+	ASSUME(IN.file_acl != 0);
+	ASSUME(!(IN.compat & EXT2_FEATURE_COMPAT_EXT_ATTR) ||
+	       !P1F_BLOCK_IN_RANGE(IN.file_acl, IN.first_data_block, IN.blocks_count));
+
+	r = check_ext_attr(ctx, &pctx, buf, &q);
+
+	CHECK(r == 0 && q.blocks == 0 && q.inodes == 0, "no EA block is accounted");
+	CHECK(mk_in[0] == 1, "an inode with an EA block pointer outside the filesystem (or without the feature) lands in inode_bad_map");
+	CHECK(!mk_stray && p1_nlog == 0 && ctx->block_ea_map == 0, "the block is neither read nor recorded; nothing is raised in pass 1");
+	if (IN.ino != IN.kino) CHECK(mk_in[1] == (IN.k_bad & 1), "no other inode's membership changes");
 	REACH("end");
 }
